@@ -128,6 +128,9 @@ def acctOperand : List String → Option String
   | "lgetx" :: a :: _ => some a | "lput" :: a :: _ => some a | "ldel" :: a :: _ => some a
   | _ => none
 
+def needsBytes (fam : List String) : Bool :=
+  match acctOperand fam with | some a => isAddrArg a | none => false
+
 def cls {α : Type} : Except Deny α → String
   | .ok _ => "ok"
   | .error d => d.toString
@@ -196,7 +199,7 @@ def step (s : St) (line : String) : St × String :=
       let aid := if f.appId ≠ 0 then f.appId else cid
       let mv := minVersion fam
       if aid = 0 ∨ mv = 0 then (s, "bad-op")
-      else if v < mv ∨ (v < 4 ∧ (match acctOperand fam with | some a => isAddrArg a | none => false)) then (s, "asmfail")
+      else if v < mv ∨ (v < 4 ∧ needsBytes fam) then (s, "asmfail")
       else
         let (w, r, deny) := enter s.group s.w s.res s.policy f aid
         let s := { s with w := w, res := some r }
@@ -207,6 +210,7 @@ def step (s : St) (line : String) : St × String :=
           let cx : Ctx := { version := v, appId := aid, snd := snd, f := f, res := r, low := s.low, policy := s.policy }
           let plain (c : String) : St × String := (s, c ++ " " ++ stateStr s.res s.w)
           let box (op : String) (k : BoxKey) (size : Nat) : St × String :=
+            let k : BoxKey := (k.1, if k.2 = "_" then "" else k.2)
             let (w', r', g) := boxOp s.w cx op k size
             let s' := { s with w := w', res := some r' }
             (s', gateStr g ++ " " ++ stateStr s'.res s'.w)
